@@ -39,7 +39,7 @@ SER = "Modelled, not verified: bincode's wire format and the serde impls (re-spe
 CHECKS.update({
  "C08": ("proof", "Props.C08.load_save / load_save_reachable: decode(encode g) = g with the allocator position at 0, for every graph satisfying the explicit predicate WfG and hence (ReachW.wfG) for every graph reachable by a valid history of representable calls, of the real label/datum types (per-type round-trip lemmas incl. UTF-8 chars, both Hex variants with padding); reload_refines + continuation_after_reload: the reloaded state refines the reference with position 0, so Theorem A gives identical answers under every continuation; next_id_after_reload = lowest absent id. Tie: real image == model encoding byte for byte; reload + same/different continuations on both handles, judged against the reference.",
          "codec round-trip theorem + refinement; byte-exact image correspondence; differential continuation", "7 C08"),
- "C09": ("proof", "Props.C09.truncated_rejected / truncated_rejected_reachable: for every well-formed graph — in particular every reachable one — and every k below the image size, load of the first k bytes is the EOF error (strict-parser combinators: decoder_strict). Tie: real image == model encoding; the real load() is run on the prefixes of the real file (quick: first/last 64 and every 7th cut point, thorough: all), each must be Err without panic. For graphs with slots removed by join() (every reachable graph): truncated_rejected_with_removed_slots (Codec/Holes.lean: the image with gaps in its keys, every proper prefix is EOF), profile joinser (images with one and two gaps, every cut point); the loadcuts monitor judges every handle.",
+ "C09": ("proof", "Props.C09.truncated_rejected / truncated_rejected_reachable: for every well-formed graph — in particular every reachable one — and every k below the image size, load of the first k bytes is the EOF error (strict-parser combinators: decoder_strict). Tie: real image == model encoding; the real load() is run on the prefixes of the real file (quick: first/last 64 and every 7th cut point, thorough: all), each must be Err without panic. For graphs with slots removed by join() (every reachable graph): truncated_rejected_with_removed_slots (Codec/Holes.lean: the image with gaps in its keys, every proper prefix is EOF), profile joinser (images with one and two gaps, every cut point); the loadcuts monitor judges every handle; complete_image_with_removed_slots (Codec/HolesLoad.lean: the complete image of such a graph loads into a smaller store when the removed slots are the top ones and panics otherwise).",
          "strict-parser proof for all graphs and all cut points; fault enumeration of cut points on the real loader as correspondence", "7 C09"),
  "C10": ("proof", "PARTIAL. In the pure model clone is the identity, so same_future_partial is determinism and clone_refines puts each copy under Theorem A; independence/aliasing of the Rust containers' Clone impls cannot be expressed in the model and is decided by the correspondence: same continuation on both copies, different continuations with the untouched copy observed after every call, each handle judged against its own reference state. The statement is also written out on a world of handles over the total model (Props.C10.World): independent / independent_calls (a call on one handle leaves every other handle's graph as it is), clone_same_future (a clone gives the same answers as the original under the same subsequent calls — also beyond the limits and after panics — whatever was done to the original in between); by construction in a model of values, stated for visibility.",
          "trivial theorem + differential aliasing check (partial)", "7 C10"),
